@@ -364,6 +364,11 @@ func (a *NilAnalysis) transfer(fn *ssa.Function, ins ssa.Instruction, f nilFacts
 				}
 			}
 		}
+		if L != "" {
+			if _, isConst := x.Val.(*ssa.Const); !isConst {
+				defer func() { f["E|"+a.regKey(x.Val)+"|"+L] = true }()
+			}
+		}
 		if !isNilable(x.Val.Type()) {
 			// whole-value store (struct / array copy): fields below the target change
 			switch x.Val.Type().Underlying().(type) {
